@@ -151,13 +151,17 @@ def rangeFinish : Res (List Value) → Res Value
   | .ok vals => if vals.length == 0 then .ok (listEmpty .number) else Gocty.listVal vals
   | r => Res.cast r
 
-theorem rangeImpl_three (E : Env) (hz : E.stepIsZeroSingleton = false) (a b s : Num) (retTy : Ty) :
+theorem isInfNum_of_fin (s : Num) (hf : isFin s = true) : isInfNum (numVal s) = false := by
+  cases s <;> simp_all [isFin, isInfNum, numVal]
+
+theorem rangeImpl_three (E : Env) (hz : E.stepIsZeroSingleton = false) (a b s : Num) (retTy : Ty)
+    (hf : isFin s = true) :
     rangeImpl E [numVal a, numVal b, numVal s] retTy =
       if dirOk (stepDown s) a b then rangeFinish (rangeLoop (stepDown s) (numVal b) (numVal s) 1025 (numVal a) [])
       else .err "end must be on the side of start that step points to" := by
   have hlt : isTrueR (Value.lessThan (numVal s) zero) = .ok (stepDown s) := by
     simp [zero, lessThan_num, stepDown, isTrueR_bool]
-  simp only [rangeImpl, hz, Bool.false_eq_true, if_false, hlt]
+  simp only [rangeImpl, hz, Bool.false_eq_true, if_false, hlt, isInfNum_of_fin s hf]
   cases hd : stepDown s
   · simp only [dirOk, lessThan_num, isTrueR_bool, Res.map, Bool.false_eq_true, if_false]
     by_cases hc : Num.cmp b a < 0
@@ -185,7 +189,7 @@ theorem rangeImpl_three_ok (E : Env) (hz : E.stepIsZeroSingleton = false) (a b s
     (hf : isFin s = true) (hdir : dirOk (stepDown s) a b = true) (vals : List Num)
     (hp : Spec.IsProgression (nextNum s) (reached (stepDown s) b) a vals) (hlen : vals.length ≤ 1024) :
     rangeImpl E [numVal a, numVal b, numVal s] retTy = .ok (mkList .number (vals.map Payload.n)) := by
-  rw [rangeImpl_three E hz, hdir]
+  rw [rangeImpl_three E hz a b s retTy hf, hdir]
   have := rangeLoop_ok (stepDown s) b s hf vals [] a 1025 hp (by simpa using hlen) (by omega)
   simp only [List.map_nil, List.nil_append] at this
   simp only [if_true, this, rangeFinish, List.length_map]
@@ -201,7 +205,7 @@ theorem rangeImpl_three_limit (E : Env) (hz : E.stepIsZeroSingleton = false) (a 
     (hf : isFin s = true)
     (hmany : ∀ k, k ≤ 1024 → reached (stepDown s) b (Spec.iterNth (nextNum s) k a) = false) :
     Fails (rangeImpl E [numVal a, numVal b, numVal s] retTy) := by
-  rw [rangeImpl_three E hz]
+  rw [rangeImpl_three E hz a b s retTy hf]
   by_cases hdir : dirOk (stepDown s) a b = true
   · obtain ⟨c, hc⟩ := rangeLoop_limit (stepDown s) b s hf 1025 [] a (by simpa using hmany) (by simp) (by simp)
     simp only [List.map_nil] at hc
@@ -211,9 +215,15 @@ theorem rangeImpl_three_limit (E : Env) (hz : E.stepIsZeroSingleton = false) (a 
 
 /-- the end on the wrong side of the start: an error -/
 theorem rangeImpl_three_dir (E : Env) (hz : E.stepIsZeroSingleton = false) (a b s : Num) (retTy : Ty)
-    (hdir : dirOk (stepDown s) a b = false) :
+    (hf : isFin s = true) (hdir : dirOk (stepDown s) a b = false) :
     Fails (rangeImpl E [numVal a, numVal b, numVal s] retTy) := by
-  rw [rangeImpl_three E hz, hdir]; exact ⟨_, rfl⟩
+  rw [rangeImpl_three E hz a b s retTy hf, hdir]; exact ⟨_, rfl⟩
+
+/-- an infinite step is rejected -/
+theorem rangeImpl_three_inf (E : Env) (a b : Value) (n : Bool) (retTy : Ty) :
+    Fails (rangeImpl E [a, b, numVal (.inf n)] retTy) := by
+  simp only [rangeImpl, isInfNum, numVal]
+  split <;> exact ⟨_, rfl⟩
 
 
 /-- two arguments: the three-argument form with step `-1` if `end < start`, else `1` -/
